@@ -9,6 +9,7 @@ import (
 	"path/filepath"
 	"strconv"
 	"strings"
+	"vharness/internal/sess"
 
 	"vharness/internal/core"
 	"vharness/internal/impl"
@@ -157,6 +158,13 @@ func c17Judge(it c17Item) (sig, detail string) {
 		if len(obs) != 10 || (rebound != "elems" && obs[3] != "a:["+strings.Join(el, ",")+`] | ""`) || obs[6] != "a:["+strings.Join(ix, ",")+`] | ""` || obs[9] != fmt.Sprintf(`i:%d | ""`, n) {
 			return "elems-indices", fmt.Sprintf("x = %s, after `%s`: observations %v", v.Canon(), strings.ReplaceAll(pre, "\n", " "), obs)
 		}
+	case "recycling":
+		// the built-in generators inside one function body: a user generator looping over a built-in one is abandoned
+		// (A), ordinary loops reuse what it gave back (B times), then K built-in generators run at once (zip or nested)
+		o := sess.Compare(c17RecyclingProgram(it.A, it.B, it.S), sess.Options{})
+		if o.Sig != "" {
+			return "builtin-generators-after-recycling:" + o.Sig, o.Detail
+		}
 	case "wrong-args":
 		obs := runWithGlobal(nil, it.S)
 		if len(obs) != 1 || !strings.HasPrefix(obs[0], "ERR ") {
@@ -166,6 +174,40 @@ func c17Judge(it c17Item) (sig, detail string) {
 		return c17Binary(ensureCalcBinary(), it)
 	}
 	return "", ""
+}
+
+func c17RecyclingProgram(abandon, reuse int, shape string) []string {
+	var b strings.Builder
+	b.WriteString("run = () -> {\n  r = []\n")
+	switch abandon {
+	case 0: // the other iterator of a zip ends first
+		b.WriteString("  for a, b <- gen(), fromto(0, 2) r = r + [[a, b]]\n")
+	case 1: // return from the body, inside a helper
+		b.WriteString("  r = r + [firstover(3)]\n")
+	case 2: // a generator over elems, abandoned by a shorter indices
+		b.WriteString("  for a, b <- gene(), indices(\"xy\") r = r + [[a, b]]\n")
+	case 3: // nothing abandoned
+	}
+	for i := 0; i < reuse; i++ {
+		b.WriteString("  for a, b <- fromto(0, 3), fromto(10, 13) r = r + [[a, b]]\n")
+	}
+	switch shape {
+	case "zip3":
+		b.WriteString("  for a, b, c <- fromto(0, 3), fromto(10, 13), fromto(20, 23) r = r + [[a, b, c]]\n")
+	case "nest3":
+		b.WriteString("  for a <- fromto(0, 2) for b <- elems(\"pq\") for c <- indices([7, 8]) r = r + [[a, b, c]]\n")
+	case "zip2-in-loop":
+		b.WriteString("  for a <- fromto(0, 2) for b, c <- elems([4, 5, 6]), indices(\"xyz\") r = r + [[a, b, c]]\n")
+	case "zip4":
+		b.WriteString("  for a, b, c, d <- fromto(0, 3), elems(\"abc\"), indices([1, 2, 3]), fromto(5, 9) r = r + [[a, b, c, d]]\n")
+	}
+	b.WriteString("  r\n}")
+	return []string{
+		"gen = () -> for i <- fromto(0, 10) yield i",
+		"gene = () -> for e <- elems(\"abcdef\") yield e",
+		"firstover = (k) -> for v <- gen() if v > k return v",
+		b.String(), "run()", "run()",
+	}
 }
 
 // c17Rebinds: names a program may bind before it uses elems / indices (index 0: none).
@@ -322,7 +364,7 @@ func init() {
 	core.Register(&core.Check{
 		ID:    "C17",
 		Level: "exploration",
-		Rule: "toa(x) against write(x) for every value of a 57-value alphabet (all kinds, boundary ints, floats incl. ±Inf, NaN, -0, subnormal and max, strings with quotes and line breaks, arrays nested to depth 3 containing functions) bound to a global; aton(toa(n)) == n for 16 boundary ints and 210 finite floats (powers of two, decimal fractions, subnormal, max); fromto(a, b) for all a, b in -3..3 and around 2^63-1 and -2^63; elems / indices (alone and zipped) over every array and string of length 0..4, also after the program bound another built-in's name or the names a, b, i, v, e to values of its own; wrong kinds and arities for all eight built-ins; through the built binary: every stdin of <= 3 lines from {\"a\", \"\", 5000 characters, \"two words\"} with and without final line break x 0..4 read() calls in -eval and file mode (in file mode also with a statement that ends in a runtime error between any two reads), and exit() with int, boundary and non-int arguments. " +
+		Rule: "toa(x) against write(x) for every value of a 57-value alphabet (all kinds, boundary ints, floats incl. ±Inf, NaN, -0, subnormal and max, strings with quotes and line breaks, arrays nested to depth 3 containing functions) bound to a global; aton(toa(n)) == n for 16 boundary ints and 210 finite floats (powers of two, decimal fractions, subnormal, max); fromto(a, b) for all a, b in -3..3 and around 2^63-1 and -2^63; elems / indices (alone and zipped) over every array and string of length 0..4, also after the program bound another built-in's name or the names a, b, i, v, e to values of its own; wrong kinds and arities for all eight built-ins; fromto / elems / indices running three and four at once (zip, nesting) after a user generator over a built-in one was abandoned and its contexts reused; through the built binary: every stdin of <= 3 lines from {\"a\", \"\", 5000 characters, \"two words\"} with and without final line break x 0..4 read() calls in -eval and file mode (in file mode also with a statement that ends in a runtime error between any two reads), and exit() with int, boundary and non-int arguments. " +
 			"Oracle: the stated contracts computed by the reference model. distinct = distinct item; non-trivial = all but the empty-input cases",
 		Assumptions:     []string{"values are injected with the exported memory.SetGlobal", "a last input line without line break counts as a line; reading past the end of input is the read error"},
 		NeedsCalcBinary: true,
@@ -387,6 +429,16 @@ func c17Run(w *core.W) {
 		for b := range c17Rebinds {
 			if !emit(c17Item{Kind: "elems-indices", A: i, B: b}) {
 				return
+			}
+		}
+	}
+	w.Family("built-in-generators-after-context-recycling")
+	for a := 0; a < 4; a++ {
+		for b := 0; b <= 3; b++ {
+			for _, shape := range []string{"zip3", "nest3", "zip2-in-loop", "zip4"} {
+				if !emit(c17Item{Kind: "recycling", A: a, B: b, S: shape}) {
+					return
+				}
 			}
 		}
 	}
